@@ -233,6 +233,9 @@ def spec(ctx, tier, seed):
         # the number of schedules grows with (messages+2)^polls: long producer scripts get one poll less in the quick tier
         npolls = (3 if len(sc) <= 4 else 2) if tier == 'quick' else 4
         jobs.append(Job('seeded-n3-%d' % i, mod, 'mirror_job', {'n': n, 'script': sc, 'polls': npolls}, stop_after_violations=40))
+    # statements / variables are plain machine words: the two largest indices double as terminal markers inside the node table
+    jobs.append(Job('extreme-var-indices', mod, 'mirror_job', {'n': 2, 'script': [S, {'op': 'variable', 'var': (1 << 64) - 2}, {'op': 'variable', 'var': 1}, {'op': 'variable', 'var': (1 << 64) - 1},
+                                                                                   {'op': 'not', 'a': 0}], 'polls': 2}, stop_after_violations=40))
     jobs.append(Job('bounded-cap2-sym', mod, 'bounded_job', {'n': 2, 'script': [S, S, {'op': 'xor', 'a': 0, 'b': 1}], 'cap': 2}, stop_after_violations=40))
     jobs.append(Job('bounded-cap1-sym', mod, 'bounded_job', {'n': 2, 'script': [S, {'op': 'not', 'a': 0}], 'cap': 1}, stop_after_violations=40))
     jobs.append(Job('canary', mod, 'mirror_job', {'n': 2, 'script': [S, {'op': 'not', 'a': 0}], 'polls': 1, 'canary': True}, stop_after_violations=1, canary=True))
